@@ -1,8 +1,16 @@
 import Ymq.Props.C05
 import Ymq.Props.C05Sched
+import Ymq.Props.C04Shape
 #print axioms Ymq.C05.abort_never_wrong_product
 #print axioms Ymq.C05.abort_consistent
 #print axioms Ymq.C05.abort_stops
 #print axioms Ymq.C05.abort_bounded
 #print axioms Ymq.C05.abort_before_start
 #print axioms Ymq.C05.abort_consistent_of_input
+#print axioms Ymq.C04Shape.abort_bounded_shape
+#print axioms Ymq.C04Shape.source_shapes_ok
+#print axioms Ymq.C04Shape.source_mt_poll_first
+#print axioms Ymq.C04Shape.siqs_mt_abort_bounded
+#print axioms Ymq.C04Shape.mpqs_mt_abort_bounded
+#print axioms Ymq.C04Shape.siqs_st_abort_bounded
+#print axioms Ymq.C04Shape.mpqs_st_abort_bounded
